@@ -14,7 +14,7 @@ package text
 //@ import "github.com/opsidian/parsley/ast"
 //@ import "github.com/opsidian/parsley/parser"
 
-//@ props C09,C12
+//@ props C09,C12,C08
 
 //@ -- File invariant: len caches len(data); the base offset is >= 1 (so that position 0 can serve
 //@ -- as "no position"), and offsets stay far away from the integer range
@@ -47,16 +47,19 @@ package text
 //@ axiom [text-reader-type] parsley.TextReaderType() == typeid[*Reader]()
 
 //@ func (f *File) Len() (r int)
+//@   props C11,C12,C09
 //@   requires f != nil
 //@   ensures  r == f.len
 //@   assigns  nothing
 
 //@ func (f *File) SetOffset(o int)
+//@   props C11,C12,C09
 //@   requires f != nil
 //@   ensures  f.offset == o
 //@   assigns  f.offset
 
 //@ func (f *File) Pos(p int) (r parsley.Pos)
+//@   props C11,C12,C09
 //@   requires f != nil && f.offset >= 0 && f.offset <= 1<<60 && 0 <= p && p <= 1<<60
 //@   ensures  int(r) == f.offset + p
 //@   assigns  nothing
@@ -155,7 +158,7 @@ package text
 //@   decreases f.len - cur
 
 //@ -- ---------------------------------------------------------------- regexp
-//@ props C09,C12
+//@ props C09,C12,C08
 
 //@ -- a compiled pattern is usable by the reader when it is anchored at the cursor and cannot match the empty input
 //@ abstract func reAnchored(re *regexp.Regexp) bool
@@ -235,6 +238,9 @@ package text
 //@   ensures [mismatch] np == pos ==> v == nil
 //@   ensures [bound] int(pos) <= int(np) && int(np) <= r.file.offset + r.file.len
 //@   ensures [advance] v != nil ==> int(np) > int(pos)
+//@   logs Readf#f
+//@   ensures [eof;C09] int(pos) - r.file.offset >= r.file.len ==> ncalls() == 0 && np == pos && v == nil
+//@   ensures [what;C09] int(pos) - r.file.offset < r.file.len ==> ncalls() == 1 && same(callarg[[]byte](1, 0), r.file.data[int(pos)-r.file.offset:]) && int(np) == int(pos) + callres[int](1, 1) && same(v, callres[[]byte](1, 0))
 //@   assigns nothing
 //@ callee f(b []byte) (v []byte, n int)
 //@   requires len(b) >= 1
@@ -267,6 +273,17 @@ package text
 //@   ensures f.data == nil || fresh(f.data)
 //@   ensures [crlf;C11] strof(f.data) == replaceAll(strof(data), "\r\n", "\n")
 //@   assigns nothing
+
+//@ import "io/ioutil"
+//@ assume func ioutil.ReadFile(filename string) (data []byte, err error)
+//@   ensures  data == nil || fresh(data)
+//@   assigns  nothing
+//@ -- ReadFile: every call builds its own File (nothing is shared between callers: C14)
+//@ func ReadFile(filename string) (f *File, err error)
+//@   props C11,C14
+//@   ensures  (f == nil) != (err == nil)
+//@   ensures  [own-file;C14] f != nil ==> fresh(f) && wfFile(f) && f.offset == 1 && f.lines == nil && f.filename == filename
+//@   assigns  nothing
 
 //@ -- line table: lines[j] is the offset of the first byte of line j+1; line starts are exactly 0 and
 //@ -- the successors of '\n' bytes, in increasing order, none skipped
@@ -357,7 +374,10 @@ package text
 //@   captures (wsMode WsMode, p parsley.Parser)
 //@   requires p != nil
 //@   include  parsley.Parser.Parse
-//@   ensures  [once;C01,C02] ncalls() == 1 && callarg[*parsley.Context](1, 1) == ctx && same(callarg[data.IntMap](1, 2), lrc) && callarg[parsley.Pos](1, 3) == pos
+//@   logs parsley.Parser.Parse, ast.SetReaderPos
+//@   ensures  [once;C01,C02] ncalls() >= 1 && callarg[*parsley.Context](1, 1) == ctx && same(callarg[data.IntMap](1, 2), lrc) && callarg[parsley.Pos](1, 3) == pos
+//@   ensures  [trim-applied;C10] callres[parsley.Error](1, 2) == nil && callres[parsley.Node](1, 0) != nil ==> ncalls() == 2 && same(callarg[parsley.Node](2, 0), callres[parsley.Node](1, 0))
+//@   ensures  [untouched-on-error;C10] callres[parsley.Error](1, 2) != nil || callres[parsley.Node](1, 0) == nil ==> ncalls() == 1
 //@   ensures  [cp] err == nil && n != nil ==> same(cp, callres[data.IntSet](1, 1))
 //@   ensures  [ws-error;C10] callres[parsley.Error](1, 2) == nil && callres[parsley.Node](1, 0) != nil && n == nil ==> err != nil && parsley.IsWsErr(err)
 //@   ghost_return when err != nil && err.Pos() > parsley.GhostMaxFail :: parsley.GhostMaxFail = err.Pos()
